@@ -21,6 +21,8 @@ from harness import core
 from harness.core import Component
 
 RETRIES = 80
+#: record counts around and above plausible batch boundaries
+NS = [0, 1, 2, 1000, 1024, 1025, 4095, 4096, 4097, 8192, 10000]
 _AUDIT: Dict[str, Any] = {"root": None, "events": []}
 _HOOKED = False
 
@@ -60,7 +62,31 @@ PAYLOAD = {"version_etag": "e2", "store": {"n": [1, 2, 3]}, "k": "v"}
 BASE = {"version_etag": "e1", "store": {"n": [1]}, "k": "v"}
 
 
-def _call(caller: str, d: Path):
+class SourceFailed(RuntimeError):
+    """Raised by the record iterator handed to `rewrite_jsonl` at a chosen position."""
+
+
+def _records(n: int, raise_at: Optional[int]):
+    for i in range(n):
+        if raise_at is not None and i == raise_at:
+            raise SourceFailed(f"record source failed at {i}")
+        yield {"i": i}
+
+
+def _tok(s: Optional[str]) -> Optional[str]:
+    """Large contents cross to the model as a digest token (the model treats contents as opaque)."""
+    if s is None or len(s) <= 256:
+        return s
+    import hashlib
+    return "#sha1:" + hashlib.sha1(s.encode("latin-1")).hexdigest()
+
+
+def _n(case: dict) -> int:
+    return int(case.get("n", 2))
+
+
+def _call(caller: str, d: Path, case: Optional[dict] = None):
+    case = case or {}
     from clematis.engine import snapshot as S
     if caller == "write_lines":
         return lambda: S._write_lines(str(d / "snapshot-e2.full.json"), {"schema": "snapshot:v1", "mode": "full", "etag_to": "e2"},
@@ -73,7 +99,9 @@ def _call(caller: str, d: Path):
         return lambda: S._write_sidecar_meta(str(d / "state_a.json"), schema_version="v1")
     if caller == "rewrite_jsonl":
         from clematis.io import log as L
-        return lambda: L.rewrite_jsonl("t1.jsonl", [{"b": 1, "a": "x"}, {"turn": 2}])
+        if "n" not in case and case.get("raise_at") is None:
+            return lambda: L.rewrite_jsonl("t1.jsonl", [{"b": 1, "a": "x"}, {"turn": 2}])
+        return lambda: L.rewrite_jsonl("t1.jsonl", _records(_n(case), case.get("raise_at")))
     if caller == "write_snapshot":
         ctx = types.SimpleNamespace(cfg={"t4": {"snapshot_dir": str(d)}}, agent_id="a", turn_id=3)
         return lambda: S.write_snapshot(ctx, {"store": None}, "etag-9", applied=1, deltas=[])
@@ -89,7 +117,7 @@ class CallerComp(Component):
     budget = {"quick": 120, "thorough": 6000, "search": 10000}
 
     def __init__(self):
-        self._golden: Dict[str, dict] = {}
+        self._golden: Dict[Any, dict] = {}
         self._r: Dict[int, List[str]] = {}
 
     # -- environment ---------------------------------------------------------------------
@@ -106,7 +134,11 @@ class CallerComp(Component):
             else:
                 os.environ[k] = v
 
-    def _mkdir(self, caller: str, old: bool) -> Tuple[Path, Path]:
+    @staticmethod
+    def _gkey(case: dict):
+        return (case["caller"], case.get("n")) if case["caller"] == "rewrite_jsonl" else (case["caller"], None)
+
+    def _mkdir(self, caller: str, old: bool, gkey=None) -> Tuple[Path, Path]:
         from harness.props import c08
         root = Path(tempfile.mkdtemp(prefix="call_", dir=str(c08._scratch())))
         d = root / "snaps"
@@ -119,23 +151,28 @@ class CallerComp(Component):
             finally:
                 self._unenv(saved)
         if old:
-            g = self._golden.get(caller)
+            g = self._golden.get(gkey if gkey is not None else (caller, None))
             if g:
                 (d / g["dest"]).write_bytes(b"OLD-BODY")
                 if g["meta"] is not None and KIND[caller] != "plain":
                     (d / (g["dest"] + ".meta")).write_bytes(b"OLD-META")
         return root, d
 
-    def golden(self, caller: str) -> dict:
+    def golden(self, case) -> dict:
         """Un-faulted run: which final names the caller writes and with which bytes."""
-        if caller in self._golden:
-            return self._golden[caller]
+        if isinstance(case, str):
+            case = {"caller": case}
+        caller = case["caller"]
+        key = self._gkey(case)
+        if key in self._golden:
+            return self._golden[key]
         from harness.lib import faults
         root, d = self._mkdir(caller, False)
         saved = self._env(d)
         try:
             before = faults.listing(d)
-            out = faults.run_injected(_call(caller, d), d, [], [], record_hist=False)
+            gcase = {k: v for k, v in case.items() if k == "n"}
+            out = faults.run_injected(_call(caller, d, gcase), d, [], [], record_hist=False)
         finally:
             self._unenv(saved)
         fs = out["fs"]
@@ -148,11 +185,13 @@ class CallerComp(Component):
         metas = [n for n in changed if n.endswith(".meta")]
         if kind == "swallow":
             m = metas[0] if metas else "state_a.json.meta"
-            g = {"dest": m[:-len(".meta")], "data": "", "meta": fs.get(m), "before": before}
+            g = {"dest": m[:-len(".meta")], "data": "", "meta": _tok(fs.get(m)), "before": before}
         else:
             b = bodies[0] if bodies else (metas[0][:-len(".meta")] if metas else "unknown")
-            g = {"dest": b, "data": fs.get(b, ""), "meta": fs.get(b + ".meta") if kind == "sidecar" else None, "before": before}
-        self._golden[caller] = g
+            g = {"dest": b, "data": _tok(fs.get(b, "")), "meta": _tok(fs.get(b + ".meta")) if kind == "sidecar" else None,
+                 "before": before}
+        g["before"] = {n: _tok(c) for n, c in g["before"].items()}
+        self._golden[key] = g
         return g
 
     # -- generation ------------------------------------------------------------------------
@@ -162,15 +201,21 @@ class CallerComp(Component):
         p = rng.choice([0.05, 0.15, 0.3])
         script = [("ok" if rng.random() >= p else rng.choice(["crash", "err:5", "err:28", "err:13", "err:16", "err:2", "short:1", "short:0"]))
                   for _ in range(L)]
-        return {"caller": caller, "old": rng.random() < 0.6, "script": script}
+        case = {"caller": caller, "old": rng.random() < 0.6, "script": script}
+        if caller == "rewrite_jsonl" and rng.random() < 0.7:
+            case["n"] = rng.choice(NS)
+            if rng.random() < 0.3:
+                case["raise_at"] = rng.choice([0, 1, case["n"] // 2, max(case["n"] - 1, 0), 4096, 4097])
+            case["script"] = [o for o in script if not o.startswith("short") or o in ("short:0", "short:1")]
+        return case
 
     # -- the real code ---------------------------------------------------------------------
     def impl(self, case: dict) -> Any:
         from harness.lib import faults
         _ensure_hook()
         caller = case["caller"]
-        g = self.golden(caller)
-        root, d = self._mkdir(caller, case["old"])
+        g = self.golden(case)
+        root, d = self._mkdir(caller, case["old"], self._gkey(case))
         saved = self._env(d)
         body, meta = d / g["dest"], d / (g["dest"] + ".meta")
         before = faults.listing(d)
@@ -178,7 +223,7 @@ class CallerComp(Component):
             _AUDIT["events"] = []
             _AUDIT["root"] = str(d)
             try:
-                out = faults.run_injected(_call(caller, d), d, [body, meta], case["script"])
+                out = faults.run_injected(_call(caller, d, case), d, [body, meta], case["script"])
             finally:
                 _AUDIT["root"] = None
             out["audit"] = list(_AUDIT["events"])
@@ -191,15 +236,17 @@ class CallerComp(Component):
         finally:
             self._unenv(saved)
             shutil.rmtree(root, ignore_errors=True)
-        out["hist"] = [[h[0][0], h[0][1], h[1]] for h in out["hist"]]
-        out["before"] = before
+        # large contents are replaced by digest tokens everywhere (model side uses the same tokens)
+        out["hist"] = [[_tok(h[0][0]), _tok(h[0][1]), h[1]] for h in out["hist"]]
+        out["fs"] = {n: _tok(c) for n, c in out["fs"].items()}
+        out["before"] = {n: _tok(c) for n, c in before.items()}
         rs = [t.rsplit(".", 1)[-1] for t in out["tmps"]] + ["XXXXXXXX", "YYYYYYYY"]
         self._r[id(case)] = rs
         return out
 
     # -- the model ---------------------------------------------------------------------------
     def request(self, case: dict) -> dict:
-        g = self.golden(case["caller"])
+        g = self.golden(case)
         kind = KIND[case["caller"]]
         rs = self._r.get(id(case), ["XXXXXXXX", "YYYYYYYY"])
         fs = dict(g["before"])
@@ -212,6 +259,10 @@ class CallerComp(Component):
         else:
             dest, data = g["dest"], g["data"]
         from harness.props.c08 import write_loop_present
+        ra = case.get("raise_at")
+        if case["caller"] == "rewrite_jsonl" and ra is not None and 0 <= ra < _n(case):
+            # the record source fails: nothing may be written at all (the payload is built before the single atomic write)
+            kind = "iterfail"
         return {"c": "atomic.caller", "kind": kind, "loop": write_loop_present(), "retries": RETRIES, "dest": dest, "r1": rs[0], "r2": rs[1],
                 "data": data, "meta": g["meta"] or "", "fs": [[n, c] for n, c in sorted(fs.items())], "script": case["script"],
                 "_watch": g["dest"]}
@@ -219,7 +270,7 @@ class CallerComp(Component):
     def compare(self, case, io, mo):
         if not (isinstance(io, dict) and "status" in io and isinstance(mo, dict) and "status" in mo):
             return super().compare(case, io, mo)
-        g = self.golden(case["caller"])
+        g = self.golden(case)
         kind = KIND[case["caller"]]
         keep = set(io["before"]) | {g["dest"], g["dest"] + ".meta"}
         a = {"status": io["status"], "fs": sorted([[n, c if n in keep else "*"] for n, c in io["fs"].items()]), "trace": io["trace"]}
@@ -236,7 +287,7 @@ class CallerComp(Component):
 
     # -- monitors ------------------------------------------------------------------------------
     def monitor_requests(self, case, io):
-        g = self.golden(case["caller"])
+        g = self.golden(case)
         kind = KIND[case["caller"]]
         body, meta = g["dest"], g["dest"] + ".meta"
         before = io["before"]
@@ -255,7 +306,7 @@ class CallerComp(Component):
         return rq
 
     def monitors(self, case, io):
-        g = self.golden(case["caller"])
+        g = self.golden(case)
         kind = KIND[case["caller"]]
         body, meta = g["dest"], g["dest"] + ".meta"
         before = io["before"]
@@ -290,6 +341,12 @@ class CallerComp(Component):
             if o != "ok":
                 t.add(f"{o.split(':')[0]}@{s}")
         nm = sum(1 for s, _ in io["trace"] if s == "mktemp")
+        if "n" in case:
+            t.add(f"records={case['n']}")
+        if case.get("raise_at") is not None:
+            t.add("source_raises")
+        if any(s == "open_direct" for s, _ in io["trace"]):
+            t.add("direct_open_for_write")
         if t:
             t.add(f"{case['caller']}:{io['status']}:writes={nm}")
         return sorted(t) or ["default"]
@@ -301,6 +358,12 @@ class CallerComp(Component):
                 yield dict(case, script=s[:i] + ["ok"] + s[i + 1:])
         if s:
             yield dict(case, script=s[:-1])
+        if case.get("n", 0) > 2:
+            for m in (case["n"] // 2, case["n"] - 1):
+                c2 = dict(case, n=m)
+                if c2.get("raise_at") is not None:
+                    c2["raise_at"] = min(c2["raise_at"], max(m - 1, 0))
+                yield c2
 
 
 CALLERS = CallerComp()
@@ -322,4 +385,27 @@ def run(ctx, run_cases) -> None:
                     cases.append(c)
                     outs.append(safe_impl(CALLERS, c))
             run_cases(ctx, CALLERS, cases, outs)
+    # callers that take an iterable: record counts around / above plausible batch boundaries, faults on every FS call of
+    # the whole call, record sources that raise at chosen positions
+    from harness.props.c08 import safe_impl
+    cases = []
+    ns = [1, 2, 4095, 4096, 4097, 8192, 10000] if quick else NS + [20000]
+    for n in ns:
+        for old in (True, False):
+            cases.append({"caller": "rewrite_jsonl", "old": old, "n": n, "script": []})
+    for n in ((4097, 10000) if quick else (1025, 4097, 10000)):
+        for ra in sorted({0, 1, n // 2, 4095, 4096, n - 1}):
+            cases.append({"caller": "rewrite_jsonl", "old": True, "n": n, "raise_at": ra, "script": []})
+    outs = [safe_impl(CALLERS, c) for c in cases]
+    run_cases(ctx, CALLERS, cases, outs)
+    for n in ((10000,) if quick else (4097, 10000)):
+        base = {"caller": "rewrite_jsonl", "old": True, "n": n, "script": []}
+        io0 = safe_impl(CALLERS, base)
+        cases, outs = [], []
+        for j in range(len(io0.get("trace") or [])):
+            for o in (("crash", "err:28") if quick else ("crash", "err:28", "err:5", "err:13")):
+                c = dict(base, script=["ok"] * j + [o])
+                cases.append(c)
+                outs.append(safe_impl(CALLERS, c))
+        run_cases(ctx, CALLERS, cases, outs)
     core.run_component(ctx, CALLERS)
